@@ -97,6 +97,19 @@ var extSummaries = map[string]extSum{
 	"iface reflect.Type.Kind":   pureNone,
 	"iface reflect.Type.Elem":   pureFresh,
 	"iface reflect.Type.String": pureFresh,
+	// the other descriptors of reflect.Type read the (immutable) type descriptor only
+	"iface reflect.Type.PkgPath":    pureFresh,
+	"iface reflect.Type.Name":       pureFresh,
+	"iface reflect.Type.Size":       pureNone,
+	"iface reflect.Type.Bits":       pureNone,
+	"iface reflect.Type.Align":      pureNone,
+	"iface reflect.Type.NumField":   pureNone,
+	"iface reflect.Type.Len":        pureNone,
+	"iface reflect.Type.Comparable": pureNone,
+	"(*reflect.rtype).PkgPath":      pureFresh,
+	"(*reflect.rtype).Name":         pureFresh,
+	"(*reflect.rtype).String":       pureFresh,
+	"(*reflect.rtype).Size":         pureNone,
 
 	// errors: the error retains its cause/message only
 	"github.com/openacid/errors.New":         pureFresh,
